@@ -35,6 +35,25 @@ theorem C14_trans_determineDivergenceSyncModes (b f : Nat) :
       = (if b > f then Mode.filterOnly else if b < f then Mode.blockOnly else Mode.both) :=
   ⟨trans_syncModes_verify b f, trans_syncModes_mode b f⟩
 
+/-- **`(*headersImport).validateChainContinuity` as the code spells it is the model's `continuity`**
+(an error exactly when the model reports one), for every file and all stores with readable tips below
+2^32 - 1, with the two checks it delegates to answering as the model's `connects` and `verifyAt`. -/
+theorem C14_trans_validateChainContinuity (F : File) (st : Stores) (md : T_chainimport_headerMetadata)
+    (im : T_chainimport_importMetadata) (bh : Option T_wire_BlockHeader) (fh : Atom) (b f : Nat)
+    (hmd : md.importMetadata = some im) (hs : im.startHeight = F.bstart) (he : md.endHeight = endHeight F)
+    (hb : bChainTip st = some b) (hf : fChainTip st = some f) (hb32 : b + 1 < 2 ^ 32) (hf32 : f + 1 < 2 ^ 32) :
+    validateChainContinuity (some md, false) (bh, b, false) (fh, f, false)
+        (fun s t _ => !connects F st s t) (fun h _ => !verifyAt F st .both h)
+      = (continuity F st).isSome :=
+  trans_continuity F st md im bh fh b f hmd hs he hb hf hb32 hf32
+
+/-- a failing metadata or chain-tip lookup makes `validateChainContinuity` fail -/
+theorem C14_trans_validateChainContinuity_err (m : Option T_chainimport_headerMetadata × Bool)
+    (bt : Option T_wire_BlockHeader × Nat × Bool) (ft : Atom × Nat × Bool)
+    (f4 : Nat → Nat → Option T_chainimport_headerMetadata → Bool) (f5 : Nat → Nat → Bool)
+    (h : m.2 = true ∨ bt.2.2 = true ∨ ft.2.2 = true) : validateChainContinuity m bt ft f4 f5 = true :=
+  trans_continuity_err m bt ft f4 f5 h
+
 /-- **`targetHeightToImportSourceIndex`** is `h - start` for a height inside the file and WRAPS
 below it (uint32): the code itself has no guard (F7's neighbourhood) -/
 theorem C14_trans_targetHeightToImportSourceIndex (h s : Nat) :
